@@ -376,6 +376,6 @@ def r8(cx):
                                        'reports completed/closed for a source that is still running' % (c, wrong[0]), g.loc(x), [node_desc(g, x)]))
                 else:
                     res.append(Finding(ID, 'R8', label, True, 'non-terminal writer stores a value every predicate reads as running (or the value cannot be resolved statically)', g.loc(x)))
-    if not cx.control and n < 2:
-        res.append(Finding(ID, 'R8', 'floor', False, 'expected the two terminal writers of the status flag, found %d' % n))
+    if not cx.control and n < 1:
+        res.append(Finding(ID, 'R8', 'floor', False, 'no writer of the status flag found'))
     return res
